@@ -2,7 +2,7 @@ SPEC = {
     'id': 'C13',
     'properties_file': 'theories/Properties/C13.v',
     'properties_module': 'Properties.C13',
-    'gen_files': [],
+    'gen_files': ['theories/GenFacts/IndexFacts.v'],
     'allowed_axioms': ['functional_extensionality_dep'],
     'streams': [{
         'name': 'listing', 'pkg': '.', 'test': 'TestVerifC13',
@@ -29,6 +29,7 @@ SPEC = {
             'bound or reverse; distinct = history x replica x (since, until, reverse)',
     'trusted_base': [
         'Coq 8.16.1 kernel; vm_compute for evaluating the model on cases',
+        'translator gen/index.go (entry source and scan direction of UpdateIndex, its resets, first-wins shape of the handlers, arguments of sorting.Sort, entry source of both ListEvents)',
         'axiom: Coq.Logic.FunctionalExtensionality.functional_extensionality_dep (standard library; only through the shared MetaLog '
         'development, the C13 theorems themselves are closed)',
         'harness/root/zz_verif_c13_test.go, harness/root/zz_verif_meta_common_test.go',
